@@ -397,7 +397,11 @@ func storeReadBack(r *core.Run) {
 		names = append(names, names[0]+"x", names[1]+"-2")
 		mk := func() map[string]tripleRec {
 			out := map[string]tripleRec{}
-			for i := 0; i < 40; i++ {
+			nEntries := 40
+			if round%3 == 1 {
+				nEntries = 260 // more than any page size a list helper might default to
+			}
+			for i := 0; i < nEntries; i++ {
 				t := tripleRec{S: names[rng.Intn(len(names))], D: names[rng.Intn(len(names))], Q: core.GenUint64(rng), V: core.GenBytes(rng, 32)}
 				if len(t.V) == 0 {
 					t.V = []byte{1}
